@@ -49,6 +49,7 @@ namespace TAO_PEGTL_NAMESPACE
          template< typename T >
          memory_input_base( const inputerator_t& in_begin, const char* in_end, T&& in_source ) noexcept( std::is_nothrow_constructible_v< Source, T&& > )
             : m_begin( in_begin.data ),
+              m_begin_byte( in_begin.byte ),
               m_current( in_begin ),
               m_end( in_end ),
               m_source( std::forward< T >( in_source ) )
@@ -57,6 +58,7 @@ namespace TAO_PEGTL_NAMESPACE
          template< typename T >
          memory_input_base( const char* in_begin, const char* in_end, T&& in_source ) noexcept( std::is_nothrow_constructible_v< Source, T&& > )
             : m_begin( in_begin ),
+              m_begin_byte( 0 ),
               m_current( in_begin ),
               m_end( in_end ),
               m_source( std::forward< T >( in_source ) )
@@ -134,6 +136,7 @@ namespace TAO_PEGTL_NAMESPACE
             assert( in_line != 0 );
             assert( in_column != 0 );
 
+            m_begin_byte = in_byte;
             m_current.data = m_begin;
             m_current.byte = in_byte;
             m_current.line = in_line;
@@ -141,8 +144,14 @@ namespace TAO_PEGTL_NAMESPACE
             private_depth = 0;
          }
 
+         [[nodiscard]] std::size_t begin_byte() const noexcept
+         {
+            return m_begin_byte;  // The byte counter that corresponds to begin().
+         }
+
       protected:
          const char* const m_begin;
+         std::size_t m_begin_byte;
          inputerator_t m_current;
          const char* m_end;
          const Source m_source;
@@ -236,6 +245,11 @@ namespace TAO_PEGTL_NAMESPACE
          {
             m_current = m_begin.data;
             private_depth = 0;
+         }
+
+         [[nodiscard]] std::size_t begin_byte() const noexcept
+         {
+            return m_begin.byte;  // The byte counter that corresponds to begin().
          }
 
       protected:
@@ -382,12 +396,15 @@ namespace TAO_PEGTL_NAMESPACE
 
       [[nodiscard]] const char* at( const TAO_PEGTL_NAMESPACE::position& p ) const noexcept
       {
-         return this->begin() + p.byte;
+         return this->begin() + ( p.byte - this->begin_byte() );
       }
 
       [[nodiscard]] const char* begin_of_line( const TAO_PEGTL_NAMESPACE::position& p ) const noexcept
       {
-         return at( p ) - ( p.column - 1 );
+         // On the first line the column can start at a value other than 1, never go back before the data.
+         const char* const a = at( p );
+         const std::size_t available = static_cast< std::size_t >( a - this->begin() );
+         return a - ( ( ( p.column - 1 ) < available ) ? ( p.column - 1 ) : available );
       }
 
       [[nodiscard]] const char* end_of_line( const TAO_PEGTL_NAMESPACE::position& p ) const noexcept
